@@ -286,6 +286,35 @@ fn run_ctor(c: &mut Ctx, i: u64, a: f64, b: f64) -> Option<W> {
     }
 }
 
+/// Checked construction: whenever TryFrom accepts a pair, the value must be valid.
+fn run_tryfrom(c: &mut Ctx) {
+    use std::convert::TryFrom;
+    let a = f64_in(&mut c.rng, -1000, 999);
+    let a = if c.rng.chance(1, 4) { mk(c.rng.coin(), exp_of(a), 0) } else { a };
+    let he = ulp_exp(a) - 1;
+    let b = match c.rng.below(6) {
+        0 => {
+            let base = pow2((he + c.rng.range(-2, 1)).clamp(-1074, 1023));
+            step(base, c.rng.range(-3, 3)) * if c.rng.coin() { 1.0 } else { -1.0 }
+        }
+        1 => {
+            let e = (he - c.rng.range(0, 3)).clamp(-1074, 1023);
+            if e < -1022 { pow2(e) * 1.25 } else { mk(c.rng.coin(), e, mant_any(&mut c.rng)) }
+        }
+        _ => {
+            let cls = c.rng.below(N_LO_CLASSES);
+            lo_class(&mut c.rng, a, cls)
+        }
+    };
+    let ins = [hx(a), hx(b)];
+    c.note("try_from", &ins, true);
+    if let Ok((r1, r2)) = guard(|| (TwoFloat::try_from((a, b)).ok().map(w), TwoFloat::try_from([a, b]).ok().map(w))) {
+        for r in [r1, r2].into_iter().flatten() {
+            check(c, "try_from", &ins, r);
+        }
+    }
+}
+
 fn run_int(c: &mut Ctx) {
     // integer conversions incl. the dedicated 128-bit "tie next to an odd high word" generator
     let len = 1 + c.rng.below(128) as u32;
@@ -409,6 +438,8 @@ pub fn c01(c: &mut Ctx) {
             }
         }
         run_int(c);
+        run_tryfrom(c);
+        run_tryfrom(c);
     }
     // (a') deterministic linear grids over each function's natural domain: saturation thresholds and
     //      range switches are narrow bands in *linear* scale that log-uniform sampling never meets
